@@ -33,6 +33,10 @@ class UnwindExceeded(EngineSignal):
     pass
 
 
+class PathCut(EngineSignal):
+    """The harness deliberately ends this path (stated bound reached); counted, not an error."""
+
+
 class PathBudget(EngineSignal):
     pass
 
@@ -800,6 +804,8 @@ class Context:
                 self.stats["paths"] += 1
             except Infeasible:
                 self.stats["infeasible"] += 1
+            except PathCut:
+                self.stats["cut"] = self.stats.get("cut", 0) + 1
             finally:
                 _CTX = prev
                 self.solver.pop()
